@@ -1,9 +1,11 @@
 import Driver.Proto
+import Driver.C05
 import Driver.C06
 import Driver.C16
 import Driver.C16Mon
 
 def suites : List (String × Driver.Suite) :=
+  Driver.C05.suites ++
   Driver.C06.suites ++
   Driver.C16.suites ++
   Driver.C16Mon.suites
